@@ -67,6 +67,7 @@ type World struct {
 	initOK   bool
 	initSub  string
 	initGr   string
+	initRes  []string
 	// captured
 	notifs    []Notif
 	lastPage  string
@@ -308,6 +309,11 @@ func (w *World) newProvider() (*provider.Provider, error) {
 				case "PolSuccess":
 					s.SetUserID(w.pol.Sub)
 					s.GrantScopes(w.pol.Granted)
+					if len(w.pol.Resources) > 0 {
+						s.GrantResources(append([]string(nil), w.pol.Resources...))
+					} else {
+						s.GrantResources(nil)
+					}
 					return goidc.StatusSuccess, nil
 				case "PolInProgress":
 					n, _ := s.StoredParameter("steps").(float64)
@@ -367,6 +373,9 @@ func (w *World) newProvider() (*provider.Provider, error) {
 					}
 					s.SetUserID(w.initSub)
 					s.GrantScopes(w.initGr)
+					if len(w.initRes) > 0 {
+						s.GrantResources(append([]string(nil), w.initRes...))
+					}
 					return nil
 				},
 				func(_ context.Context, s *goidc.AuthnSession) error {
@@ -455,8 +464,10 @@ func (w *World) newProvider() (*provider.Provider, error) {
 			opts = append(opts, provider.WithDCRTokenRotation())
 		case "WithAuthenticationSessionTimeout":
 			opts = append(opts, provider.WithAuthenticationSessionTimeout(o.Z))
+		case "WithResourceIndicators":
+			opts = append(opts, provider.WithResourceIndicators(o.S, append([]string(nil), o.L...)...))
 		case "WithResourceIndicatorsRequired":
-			opts = append(opts, provider.WithResourceIndicatorsRequired("https://rs.example"))
+			opts = append(opts, provider.WithResourceIndicatorsRequired(o.S, append([]string(nil), o.L...)...))
 		case "WithIssuerResponseParameter":
 			opts = append(opts, provider.WithIssuerResponseParameter())
 		case "WithPathPrefix":
